@@ -53,6 +53,13 @@ func tunablesOverlay(aad string, name string) (string, error) {
 		}
 		return []byte(strings.Join(out, "\n"))
 	})
+	if err != nil {
+		return ov, err
+	}
+	// the tree's abstractions too (own-<bus> etc. are not part of upstream)
+	err = copyTree(filepath.Join(aad, "abstractions"), filepath.Join(ov, "abstractions"), func(rel string, data []byte) []byte {
+		return []byte(normaliseForRef(string(data)))
+	})
 	return ov, err
 }
 
@@ -414,6 +421,15 @@ func TestC06_Replay(t *testing.T) {
 	}
 	ev := NewEv(t, "C06", "replay", "replay of one saved case")
 	ev.Case("replay")
+	if rf.Sub == "exec" { // stage shared with C07
+		var s C07Set
+		json.Unmarshal(rf.Case, &s)
+		if oerr := c07ExecOracle(s); oerr != nil && oerr != errInconclusive {
+			ev.Violate(json.RawMessage(rf.Case), "", "%v", oerr)
+			t.Fatalf("%v", oerr)
+		}
+		return
+	}
 	if rf.Sub == "generated" {
 		var c C06Gen
 		json.Unmarshal(rf.Case, &c)
